@@ -49,7 +49,7 @@ CHAIN = cfgd(NS=1, NG=3, InitSBases='<-SB_One', InitRBases='<-RB_None3',
              Names='<-NamesE', Muts='{"reg","unreg","sub","regbases"}',
              Queries='{"lookup","subs"}', RegKeys='<-RegKeysChain',
              SubKeys='<-SubKeysChain', LookKeys='<-LookKeysChain',
-             RBaseChoices='<-RBaseChoices3', MaxLive=3, MaxDepth=6)
+             RBaseChoices='<-RBaseChoices3s', MaxLive=2, MaxDepth=5)
 
 INVS = ['TypeOK', 'ExtOK', 'InvWalkIsBest', 'InvEntryPointsAgree',
         'InvSubsExact', 'CacheTransparent', 'RoIsFresh']
@@ -124,17 +124,33 @@ PLAN = {
         ]},
     'C06': {
         'quick': [
-            ('chain d6 push', 'edges', CHAIN, dict(sb='SB_One',
+            ('chain d5 push', 'edges', CHAIN, dict(sb='SB_One',
                                                    rb='RB_None3')),
-            ('chain d6 verify', 'edges', dict(CHAIN, Flavour='"verify"'),
+            ('chain d5 verify', 'edges', dict(CHAIN, Flavour='"verify"'),
              dict(sb='SB_One', rb='RB_None3')),
+            ('chain3 d4 push', 'edges',
+             dict(CHAIN, InitRBases='<-RB_Chain3', MaxDepth=4),
+             dict(sb='SB_One', rb='RB_Chain3')),
+            ('chain3 d4 verify', 'edges',
+             dict(CHAIN, InitRBases='<-RB_Chain3', MaxDepth=4,
+                  Flavour='"verify"'),
+             dict(sb='SB_One', rb='RB_Chain3')),
         ],
         'thorough': [
-            ('chain d8 push', 'edges', dict(CHAIN, MaxDepth=8),
+            ('chain d6 push', 'edges',
+             dict(CHAIN, MaxDepth=6, RBaseChoices='<-RBaseChoices3'),
              dict(sb='SB_One', rb='RB_None3')),
-            ('chain d8 verify', 'edges', dict(CHAIN, MaxDepth=8,
-                                              Flavour='"verify"'),
+            ('chain d6 verify', 'edges',
+             dict(CHAIN, MaxDepth=6, RBaseChoices='<-RBaseChoices3',
+                  Flavour='"verify"'),
              dict(sb='SB_One', rb='RB_None3')),
+            ('chain3 d6 push', 'edges',
+             dict(CHAIN, InitRBases='<-RB_Chain3', MaxDepth=6),
+             dict(sb='SB_One', rb='RB_Chain3')),
+            ('chain3 d6 verify', 'edges',
+             dict(CHAIN, InitRBases='<-RB_Chain3', MaxDepth=6,
+                  Flavour='"verify"'),
+             dict(sb='SB_One', rb='RB_Chain3')),
             ('chain4 sim push', 'sim',
              dict(CHAIN, NG=4, InitRBases='<-RB_None4',
                   RBaseChoices='<-RBaseChoices4', MaxLive=4, MaxDepth=100),
